@@ -147,6 +147,20 @@ impl TcpState {
     pub fn put_seg(&mut self, k: (Instant, u64), seg: TcpSeg) {
         self.segs.insert(k, seg);
     }
+    pub fn sockets_of(&self, ip: std::net::IpAddr) -> Vec<String> {
+        let mut v: Vec<String> = self.listeners.keys().filter(|a| a.ip() == ip).map(|a| format!("tcp-listen {a}")).collect();
+        for (id, c) in self.conns.iter() {
+            for (ei, e) in c.ends.iter().enumerate() {
+                if let Some(l) = e.local {
+                    // the accepting end exists once the listener took the SYN (backlog or accepted)
+                    if l.ip() == ip && !e.closed && (ei == 0 || c.ends[1].local.is_some()) {
+                        v.push(format!("tcp conn {id} end {ei} {l}"));
+                    }
+                }
+            }
+        }
+        v
+    }
     pub fn open_connections(&self) -> usize {
         self.conns.len()
     }
